@@ -44,6 +44,8 @@ impl BytesMut {
 }
 impl Bytes {
     #[verifier::external_body]
+    pub fn as_ref(&self) -> (r: &[u8]) ensures r@ == self@ { &self.v[..] }
+    #[verifier::external_body]
     pub fn new() -> (r: Bytes) ensures r@ == Seq::<u8>::empty() { Bytes { v: Vec::new() } }
     #[verifier::external_body]
     pub fn len(&self) -> (r: usize) ensures r == self@.len(), r <= 0x7fff_ffff_ffff_ffffusize /* Rust allocations never exceed isize::MAX bytes */ { self.v.len() }
